@@ -282,6 +282,18 @@ package data
 //@   ensures [C01.root-steps] forall(k, 0, len(dims), r.Step[k] == 1 && r.OffsetStep[k] == r.Offset[k])
 //@   ensures [C01.root-offsets] r.Offset[len(dims)-1] == 1 && forall(k, 0, len(dims)-1, r.Offset[k] == r.Offset[k+1]*dims[k+1])
 //@   ensures [C01.root-no-alias] r.OffsetStep.id != data.id && r.Offset.id != data.id && r.Step.id != data.id
+//@   ensures [C01.root-offsets-products] forall(k, 0, len(dims), r.Offset[k] == pfrom(dims, k+1, len(dims)))
+
+//@ func ArrayFromSlice{T}(data, dims) returns (r)
+//@   safety C01
+//@   requires len(dims) >= 1
+//@   fresh r
+//@   dyntype r nd{t}
+//@   assigns nothing
+//@   ensures [C01.root-header] r != nil && as(r, nd{t}).Start == 0 && as(r, nd{t}).Impl == data && as(r, nd{t}).Dims == dims && as(r, nd{t}).OriginalDims == dims
+//@   ensures [C01.root-lens] len(as(r, nd{t}).Step) == len(dims) && len(as(r, nd{t}).Offset) == len(dims) && len(as(r, nd{t}).OffsetStep) == len(dims)
+//@   ensures [C01.root-steps] forall(k, 0, len(dims), as(r, nd{t}).Step[k] == 1 && as(r, nd{t}).OffsetStep[k] == as(r, nd{t}).Offset[k])
+//@   ensures [C01.root-offsets-products] forall(k, 0, len(dims), as(r, nd{t}).Offset[k] == pfrom(dims, k+1, len(dims)))
 
 //@ func newArray{t}(dims) returns (r)
 //@   locals size, impl
@@ -642,7 +654,7 @@ package data
 // element j (row-major) is data[j]. This is the bridge between the concrete header of the Go
 // back-end (whose fields, Index and Get are proved in C01) and the abstract row-major view; it
 // is ASSUMED here, not proved.
-//@ func ArrayFromSlice{T}(data, dims) returns (r)
+//@ func ArrayFromSlice{T}#rowmajor(data, dims) returns (r)
 //@   ndmodel rowmajor
 //@   trusted bridge: the Go-backed array over data with extents dims has data[j] as its row-major element j
 //@   requires dims.off == 0 && iprod(dims, len(dims)) == len(data)
@@ -652,6 +664,7 @@ package data
 
 //@ func AddTo{T}Array(dest, source)
 //@   locals destSlice, sourceSlice, i, idx, shape, size, pos
+//@   loopsigs 6aa92397 aec0de26
 //@   ndmodel rowmajor/rav
 //@   simplify entry-ids
 //@   bounded rank <= 3 (mixed-radix successor lemma per rank)
@@ -681,6 +694,7 @@ package data
 // fn is modelled as a pure, deterministic function of its argument (A-PURE-FN)
 //@ func ApplyFunc1{T}(dest, source, fn)
 //@   locals destSlice, sourceSlice, i, idx, shape, size, pos
+//@   loopsigs 42261041 9d10ee50
 //@   ndmodel rowmajor/rav
 //@   simplify entry-ids
 //@   bounded rank <= 3 (mixed-radix successor lemma per rank)
